@@ -691,7 +691,7 @@ def _run(ctx, T, only):
         c = dict(Scope="q", MaxN2=2, MaxN1=2, MaxCalls=1, PerPoint=False, Kind="gc" if dev == "lossy_cover" else "rs",
                  Deviation=dev, DoExport=False, KMode="each")
         r = ctx.tlc("HtmMatchMC.tla", what="self-test: deviation %s violates MechRefines" % dev,
-                    cfg_text=cfg(constants=c, invariants=["MechRefines"]), workers=2, allow_violation=True, coverage=False)
+                    cfg_text=cfg(constants=c, invariants=["MechRefines"]), workers=1, allow_violation=True, coverage=False)
         if "MechRefines" not in r.violated:
             raise MachineryError("self-test failed: MechRefines not violated by deviation %s" % dev)
 
